@@ -21,8 +21,20 @@ THEOREMS = CLOSURE_THEOREMS + [
     "PauLie.C19.C19_dimName", "PauLie.C19.C19_coincidences", "PauLie.C19.C19_isomorphism_dictionary",
     "PauLie.C19.C19_commuting", "PauLie.C19.C19_a0", "PauLie.C19.C19_b0", "PauLie.C19.C19_b1", "PauLie.C19.C19_a1", "PauLie.C19.C19_b3",
     "PauLie.C19.C19_partial", "PauLie.C19.C19_witnesses", "PauLie.C19.C19_refuted",
+    "PauLie.C19.C19_a2", "PauLie.C19.C19_a4", "PauLie.C19.C19_a8", "PauLie.C19.C19_a14", "PauLie.C19.C19_dimension",
+    "PauLie.C19.C19_partial_more", "PauLie.C19.C19_a1_row", "PauLie.C19.C19_a2_row", "PauLie.C19.C19_a4_row",
+    "PauLie.C19.C19_a8_row", "PauLie.C19.C19_a14_row", "PauLie.C19.C19_b3_row", "PauLie.C19.C19_rows",
+    "PauLie.C19.C19_partial_rows", "PauLie.C19.invOfClosure_of_blocks", "PauLie.C19.invOfClosure_bils",
+    "PauLie.C19.invOfClosure_two_blocks", "PauLie.C19.invOfClosure_singles", "PauLie.C19.labelOfBlock_so",
+    "PauLie.C03.invOfClosure_perm_closed", "PauLie.C19.C19_a12", "PauLie.C19.C19_a17", "PauLie.C19.C19_a18",
+    "PauLie.C19.C19_a19", "PauLie.C19.C19_a21", "PauLie.C19.C19_a22", "PauLie.C19.C19_dimension_su",
+    "PauLie.C19.full_of_windows", "PauLie.C19.clo_full_of_window", "PauLie.C19.card_full_of_window",
+    "PauLie.C19.two_blocks", "PauLie.C19.Maj.clo_maj", "PauLie.C19.Maj.card_clo_maj",
+    "PauLie.Comp.clo_append", "PauLie.Comp.clo_inter", "PauLie.Comp.card_clo_append", "PauLie.Comp.clo_flatten",
+    "PauLie.Comp.card_clo_flatten",
 ]
-IMPORTS = CLOSURE_IMPORTS + ["PauLieVerif.Proofs.TieTwoLocal", "PauLieVerif.Properties.C19"]
+IMPORTS = CLOSURE_IMPORTS + ["PauLieVerif.Proofs.TieTwoLocal", "PauLieVerif.Properties.C19", "PauLieVerif.Properties.C19More",
+    "PauLieVerif.Properties.C19Rows", "PauLieVerif.Properties.C19Su"]
 
 FAMILIES = ["a%d" % i for i in range(23)] + ["b%d" % i for i in range(5)]
 KNOWN_N3 = ("a11", "a12", "a17")
